@@ -52,6 +52,7 @@ MaxKdf(st) == CASE st = "cache_lookup" -> 2 [] st = "derive" -> 63 [] st = "kek"
 KdfBudget == 68
 (* generous work bounds used by the trace checks (line events of the library's own code)      *)
 StepBudget(len) == 400 * len + 20000
+MemBudgetK(len) == (64 * len) \div 1024 + 16384      \* KiB: 64 bytes per input byte + 16 MiB
 
 VARIABLES i, outcome, kdf, defects
 vars == <<i, outcome, kdf, defects>>
